@@ -73,9 +73,9 @@ PAR = {
                      "on clones issuing 1-4 requests each, seeded schedule jitter; non-trivial = threads ran and functions executed"),
     "C17": dict(models=["syncproto"], par=["pardag", "parmemo"], monitors=("par",), needs=["hk:sync_claim", "we", "tstart"],
                 rule="same runs as C16; every WillExecute is checked against the set of keys already executed in the revision"),
-    "C18": dict(models=["syncproto"], par=["parfix", "parfb"], needs=["hk:sync_claim", "we", "tstart"],
+    "C18": dict(models=["syncproto", "syncxfer"], par=["parfix", "parfb"], needs=["hk:sync_claim", "we", "tstart"],
                 rule="fixpoint / fallback cycle programs entered concurrently at different members from 2-4 threads"),
-    "C19": dict(models=["syncproto"], par=["pardag", "parfix", "parfb", "parpcycle", "parwrite", "parcancel", "parpanic"], monitors=("sync",), needs=["hk:sync_claim", "tstart"],
+    "C19": dict(models=["syncproto", "syncxfer"], par=["pardag", "parfix", "parfb", "parpcycle", "parwrite", "parcancel", "parpanic"], monitors=("sync",), needs=["hk:sync_claim", "tstart"],
                 rule="all parallel families; every protocol event (hook H1) is applied to the SyncOps protocol state and its guard "
                      "and the protocol invariants are evaluated; non-trivial = threads ran and claimed keys"),
     "C24": dict(models=["pagealloc"], par=["paralloc", "parstruct"], monitors=("par",), needs=["tstart", "new"],
